@@ -46,6 +46,7 @@ static void run_one(int idx, FILE *out, void *vctx) {
             pid_t pid = fork();
             if(pid < 0) die("fork");
             if(pid == 0) {
+                die_with_parent();
                 real_lseek(fd, 0, SEEK_SET);
                 zck = zck_create();
                 if(!zck) die("zck_create");
